@@ -13,10 +13,11 @@
 
 #include <aws/common/task_scheduler.h>
 
-#define NT 6
+#define NT 16
 #define MAXINV 16
 #define MAXACT 3
-static const uint64_t TT[] = {0, 1, 2, 5, 1000, (uint64_t)1 << 32, UINT64_MAX - 1, UINT64_MAX};
+static const uint64_t TT[] = {0, 1, 2, 3, 5, 8, 13, 21, 34, 55, 89, 144, 233, 377, 610, 1000, 5000, (uint64_t)1 << 31, (uint64_t)1 << 32,
+                              (uint64_t)1 << 33, (uint64_t)1 << 63, UINT64_MAX - 2, UINT64_MAX - 1, UINT64_MAX};
 #define NTT ((int)(sizeof(TT) / sizeof(TT[0])))
 
 struct act {
